@@ -8,6 +8,7 @@ function / clause / property tags).
 """
 import copy
 import alpha
+import inline
 import json
 import os
 import re
@@ -890,6 +891,7 @@ class Splicer:
         self.baseline = {}
         self.baseline_out = None
         self._fq_seen = {}
+        self._helpers = {}
         self.packed = []
         self.enums = []
 
@@ -966,6 +968,23 @@ class Splicer:
         out = self.out
         ms = parse_vspec(os.path.join(VERIF, 'contracts', mod + '.vspec'), mod)
         src, mask, items = parse_file(self.path_of(mod))
+        # functions of this module without a contract: candidates for D28
+        hs = {}
+
+        def _collect(its, ctx):
+            for x in its:
+                if x.kind == 'fn' and x.body is not None and not is_cfg_test(x.attrs):
+                    sg = parse_fn(x)
+                    k = ('%s::%s' % (ctx, sg.name)) if ctx else sg.name
+                    if k not in ms.fns and not (ctx and ' for ' in ctx):
+                        h = inline.parse_helper(sg, x.body)
+                        if h is not None:
+                            h.ctx = ctx
+                        hs[sg.name] = h if sg.name not in hs else None
+                elif x.kind == 'impl' and x.children and not is_cfg_test(x.attrs):
+                    _collect(x.children, x.name)
+        _collect(items, None)
+        self._helpers[mod] = {n: h for n, h in hs.items() if h is not None}
         root = (mod == 'lib')
         if not root:
             out.emit('pub mod %s {' % mod)
@@ -1207,12 +1226,16 @@ class Splicer:
         if spec and not getattr(spec, '_implied_done', False):
             # a property's check must see every obligation its argument depends on (DESIGN.md section 4a)
             spec._implied_done = True
+            def close(tg):
+                tg = set(tg)
+                for _ in range(3):
+                    tg |= implied_tags(mod, impl_ctx or '', sig.name, tg)
+                return tg
+            spec.ensures = [((sorted(close(tg)) if tg else tg), t) for (tg, t) in spec.ensures]
             cur = set(t for (tg, _) in spec.ensures for t in tg) | set(spec.tags or [])
-            extra = implied_tags(mod, impl_ctx or '', sig.name, cur)
-            if extra:
-                spec.ensures = [((sorted(set(tg) | extra) if tg else tg), t) for (tg, t) in spec.ensures]
-            if spec.tags is not None or extra:
-                spec.tags = sorted(cur | extra)      # the body's obligations support every clause
+            full = close(cur)
+            if spec.tags is not None or full != cur or cur:
+                spec.tags = sorted(full)      # the body's obligations support every clause
         tags_all = sorted(set(t for (tg, _) in (spec.ensures + spec.requires if spec else []) for t in tg) | set(spec.tags or [] if spec else []))
         rec = dict(module=mod, key=key, fq=fq, covered=covered, trusted=bool(spec and spec.trusted),
                    tags=tags_all, body_tags=(spec.tags if spec and spec.tags is not None else tags_all),
@@ -1252,6 +1275,23 @@ class Splicer:
             bkey = '%s#%d' % (fq, occ)
             if self.baseline_out is not None:
                 self.baseline_out[bkey] = it.body
+            if self.baseline.get(bkey) is not None and it.body != self.baseline[bkey] and not inline.same_tokens(it.body, self.baseline[bkey]):
+                # D28: calls to contract-less helpers of this module un-extracted, if that gives back the baseline
+                own = (impl_ctx or '').split(' for ')[-1].strip() or None
+                cand = {n: h for n, h in self._helpers.get(mod, {}).items()
+                        if h.ctx == own and re.search(r'\b%s\s*\(' % re.escape(n), it.body)}
+                if cand:
+                    try:
+                        new_body, done = inline.inline_calls(it.body, cand)
+                    except Exception:
+                        new_body, done = it.body, []
+                    if done:
+                        restored, ren = alpha.alpha_restore(new_body, self.baseline[bkey])
+                        if inline.same_tokens(restored, self.baseline[bkey]):
+                            it = copy.copy(it)
+                            it.body = self.baseline[bkey]
+                            rec['uninlined'] = sorted(set(done))
+                            out.count('D28 calls to contract-less helpers un-extracted: the result is the baseline body (token-identical modulo renamed locals)', len(done))
             if self.baseline.get(bkey) is not None and it.body != self.baseline[bkey]:
                 restored, ren = alpha.alpha_restore(it.body, self.baseline[bkey])
                 if ren:
